@@ -26,6 +26,9 @@ use vibesql_storage::Database;
 use crate::tw::{self, V};
 
 const CREATE: &str = "CREATE TABLE t (id INT, a INT, b INT, c VARCHAR(10))";
+/// the same table with every column declared NOT NULL (used only with rows that hold no NULL): an
+/// implementation may take ordering shortcuts for columns it knows to be NOT NULL
+const CREATE_NOT_NULL: &str = "CREATE TABLE t (id INT NOT NULL, a INT NOT NULL, b INT NOT NULL, c VARCHAR(10) NOT NULL)";
 /// (a, b, c)
 const ROWS: [&str; 7] = ["0, 1, 'a'", "1, 0, 'b'", "1, 1, 'a'", "NULL, 0, 'ab'", "0, NULL, NULL", "NULL, NULL, 'b'", "2, 1, 'ab'"];
 const HISTORY: [&str; 2] = ["UPDATE t SET a = a + 1 WHERE id = 1", "DELETE FROM t WHERE id = 2"];
@@ -35,6 +38,9 @@ struct Config {
     key: &'static str,
     ddl: Option<&'static str>,
     history: bool,
+    /// columns declared NOT NULL and the rows inserted in descending id order (so that rows sharing an
+    /// index key do not happen to sit in sorted order already); applies to NULL-free tables only
+    notnull_rev: bool,
 }
 
 fn configs(thorough: bool) -> Vec<Config> {
@@ -52,14 +58,17 @@ fn configs(thorough: bool) -> Vec<Config> {
     let mut out = vec![];
     if thorough {
         for (k, d) in &idx {
-            out.push(Config { key: k, ddl: *d, history: false });
-            out.push(Config { key: k, ddl: *d, history: true });
+            out.push(Config { key: k, ddl: *d, history: false, notnull_rev: false });
+            out.push(Config { key: k, ddl: *d, history: true, notnull_rev: false });
+            out.push(Config { key: k, ddl: *d, history: false, notnull_rev: true });
         }
     } else {
-        out.push(Config { key: "none", ddl: None, history: false });
-        out.push(Config { key: "a", ddl: idx[1].1, history: false });
-        out.push(Config { key: "a,b", ddl: idx[2].1, history: true });
-        out.push(Config { key: "aD,b", ddl: idx[4].1, history: true });
+        out.push(Config { key: "none", ddl: None, history: false, notnull_rev: false });
+        out.push(Config { key: "a", ddl: idx[1].1, history: false, notnull_rev: false });
+        out.push(Config { key: "a,b", ddl: idx[2].1, history: true, notnull_rev: false });
+        out.push(Config { key: "aD,b", ddl: idx[4].1, history: true, notnull_rev: false });
+        out.push(Config { key: "c(1)", ddl: idx[8].1, history: false, notnull_rev: true });
+        out.push(Config { key: "a", ddl: idx[1].1, history: false, notnull_rev: true });
     }
     out
 }
@@ -72,8 +81,12 @@ fn multisets(n_items: usize, max: usize) -> Vec<Vec<usize>> {
     out
 }
 
+fn applicable(rows: &[usize], cfg: &Config) -> bool {
+    !cfg.notnull_rev || rows.iter().all(|r| !ROWS[*r].contains("NULL"))
+}
+
 fn build_db(rows: &[usize], cfg: &Config) -> Result<Database, String> {
-    let mut db = exec::fresh(&[CREATE]);
+    let mut db = exec::fresh(&[if cfg.notnull_rev { CREATE_NOT_NULL } else { CREATE }]);
     // history variant: the index exists first and is maintained through INSERT, UPDATE and DELETE
     if cfg.history {
         if let Some(d) = cfg.ddl {
@@ -81,7 +94,10 @@ fn build_db(rows: &[usize], cfg: &Config) -> Result<Database, String> {
         }
     }
     if !rows.is_empty() {
-        let vals: Vec<String> = rows.iter().enumerate().map(|(i, r)| format!("({}, {})", i + 1, ROWS[*r])).collect();
+        let mut vals: Vec<String> = rows.iter().enumerate().map(|(i, r)| format!("({}, {})", i + 1, ROWS[*r])).collect();
+        if cfg.notnull_rev {
+            vals.reverse();
+        }
         let o = exec::exec(&mut db, &format!("INSERT INTO t VALUES {}", vals.join(", ")));
         if !o.is_ok() {
             return Err(format!("rows rejected: {}", o.brief()));
@@ -454,6 +470,7 @@ fn case_json(rows: &[usize], cfg: &Config, q: &Q) -> Value {
         "index": cfg.ddl,
         "index_key": cfg.key,
         "history": cfg.history,
+        "notnull_rev": cfg.notnull_rev,
         "history_steps": if cfg.history { HISTORY.to_vec() } else { vec![] },
         "query": q.sql,
         "unordered": q.unordered,
@@ -468,7 +485,7 @@ fn case_json(rows: &[usize], cfg: &Config, q: &Q) -> Value {
 fn eval_case(case: &Value, verbose: bool) -> Result<Option<String>, String> {
     let rows: Vec<usize> = case["rows"].as_array().map(|a| a.iter().filter_map(|x| x.as_u64().map(|u| u as usize)).collect()).unwrap_or_default();
     let ddl: Option<&'static str> = case["index"].as_str().and_then(|d| configs(true).into_iter().find(|c| c.ddl == Some(d)).and_then(|c| c.ddl));
-    let cfg = Config { key: "replay", ddl, history: case["history"].as_bool().unwrap_or(false) };
+    let cfg = Config { key: "replay", ddl, history: case["history"].as_bool().unwrap_or(false), notnull_rev: case["notnull_rev"].as_bool().unwrap_or(false) };
     let db = build_db(&rows, &cfg)?;
     let keys: Vec<(KeyRef, bool)> = case["keys"]
         .as_array()
@@ -545,6 +562,9 @@ pub fn run(tier: &str) -> i32 {
         dbs.push(vec![0, 1, 2, 3, 4, 5, 6]);
         dbs.push(vec![2, 1, 1, 0, 3, 5]);
         dbs.push(vec![4, 3, 2, 2, 0]);
+        // NULL-free tables with shared index keys / shared prefixes ('a' and 'ab')
+        dbs.push(vec![0, 1, 2, 6, 6]);
+        dbs.push(vec![0, 2, 6]);
     }
     // examination order: the tables with most ties and NULLs first and configurations interleaved, so that a run cut
     // short by the time cap has seen the dense cases; reporting below is simplest-first again
@@ -554,14 +574,18 @@ pub fn run(tier: &str) -> i32 {
     for &di in &by_size {
         if dbs[di].len() > 2 {
             for ci in 0..cfgs.len() {
-                items.push((di, ci));
+                if applicable(&dbs[di], &cfgs[ci]) {
+                    items.push((di, ci));
+                }
             }
         }
     }
     for &di in &by_size {
         if dbs[di].len() <= 2 {
             for ci in 0..cfgs.len() {
-                items.push((di, ci));
+                if applicable(&dbs[di], &cfgs[ci]) {
+                    items.push((di, ci));
+                }
             }
         }
     }
